@@ -527,8 +527,11 @@ func fileSetVBuf(L *LState) int {
 	var writer io.Writer
 	file := checkFile(L)
 	errorIfFileIsClosed(L, file)
-	if n := fileIsWritable(L, file); n != 0 {
-		return n
+	if file.writer == nil {
+		// nothing is buffered for a read-only handle; like Lua 5.1 report success for any open file
+		L.CheckOption(2, filebufOptions)
+		L.Push(LTrue)
+		return 1
 	}
 	option := filebufOptions[L.CheckOption(2, filebufOptions)]
 	// output still held by the buffer that is about to be replaced must not be lost
